@@ -110,9 +110,16 @@ class PolicyLottery2D(LawOfMotion):
 
 
 class ShockedPolicyLottery2D(PolicyLottery2D):
+    def __init__(self, i1, dpi1, i2, dpi2, grid1, grid2, pi1_ss, pi2_ss):
+        # pi1, pi2 hold the shocks to the lottery weights; the linearization also needs the steady-state weights
+        super().__init__(i1, dpi1, i2, dpi2, grid1, grid2)
+        self.pi1_ss = pi1_ss.reshape(self.flatshape)
+        self.pi2_ss = pi2_ss.reshape(self.flatshape)
+
     def __matmul__(self, X):
         if self.forward:
-            return het_compiled.forward_policy_shock_2d(X.reshape(self.flatshape), self.i, self.pi).reshape(self.shape)
+            return het_compiled.forward_policy_shock_2d(X.reshape(self.flatshape), self.i1, self.i2, self.pi1_ss, self.pi2_ss,
+                                                        self.pi1, self.pi2).reshape(self.shape)
         else:
             raise NotImplementedError
 
